@@ -42,10 +42,31 @@ def _g_one(n, control_frame, via=None, short=False):
     p = sx.sym_bytes("p", n)
     key = sx.sym_bytes("k", 4)
     accept = None
-    if short:  # the transport takes the pong in two pieces (symbolic split point)
+    ep = None
+    if short == "eagain":  # the first write of the pong would block (EAGAIN); the socket has a timeout, the library waits and retries
+        import selectors as _selectors
+        from .common import ReadySelectors
+        from .envpatch import EnvPatch
+        accept = ["wouldblock"]
+        ep = EnvPatch()
+        rs = ReadySelectors()
+        ep.replace(_selectors, rs)
+        ep.replace(_selectors.DefaultSelector, rs.DefaultSelector)
+    elif short:  # the transport takes the pong in two pieces (symbolic split point)
         accept = [sx.choice("first", 6 + n - 1) + 1]
     sock = FakeSock([server_frame(1, 9, p) + server_frame(1, 1, b"x"), "eof"], accept=accept)
-    ws = new_ws(sock, via=via, get_mask_key=KeySource([key]))
+    if short == "eagain":
+        sock.timeout = 5
+    ws = new_ws(sock, via=via, get_mask_key=KeySource([key, key]))
+    try:
+        _g_one_body(ws, sock, n, control_frame, p)
+    finally:
+        if ep is not None:
+            ep.restore()
+
+
+def _g_one_body(ws, sock, n, control_frame, p):
+    Proto, Payload, Closed = _excs()
     try:
         op, data = ws.recv_data(control_frame)
     except (sx.Control, sx.ConcreteFailure, sx.ReplayMismatch):
@@ -166,6 +187,7 @@ def obligations(tier):
     one += [dict(n=n, control_frame=cf, logging_on=True) for n in (0, 1, 2, 4) for cf in (False, True)]  # trace/debug logging on
     # the pong written in two pieces (symbolic split), plain and through Dispatcher / SSLDispatcher (the WebSocketApp write path)
     one += [dict(n=n, control_frame=False, via=v, short=True) for n in (0, 3, 125) for v in (None, "dispatcher", "ssl-dispatcher")]
+    one += [dict(n=n, control_frame=False, via=v, short="eagain") for n in (0, 3) for v in (None, "dispatcher")]  # first write of the pong: EAGAIN
     shapes = []
     base = [["P", "T"], ["T", "P", "T"], ["P", "P", "T"], ["O", "P", "T"], ["F0", "P", "F1"], ["F0", "P", "FC", "P", "F1"],
             ["P", "F0", "O", "P", "F1", "P"], ["F0", "O", "F1"], ["T", "O", "T"], ["P", "P", "P"], ["F0", "P", "P", "F1", "T"]]
